@@ -237,14 +237,28 @@ def member(cls, graphql_name):
     raise AttributeError(f"{cls.__name__} has no member for GraphQL field {graphql_name!r} (members: {[k for k in vars(cls) if not k.startswith('__')][:12]})")
 
 
+def call_with_argument(method, graphql_arg, value):
+    """Call a builder method passing `value` for the GraphQL argument, whatever spelling the generator chose for the Python parameter."""
+    import inspect
+    from ariadne_codegen.utils import str_to_snake_case
+    params = list(inspect.signature(method).parameters)   # bound classmethod: `cls` is not listed
+    sn = str_to_snake_case(graphql_arg)
+    for cand in (sn, sn + "_", graphql_arg, graphql_arg + "_", sn.lstrip("_"), sn.lstrip("_") + "_"):
+        if cand in params:
+            return method(**{cand: value})
+    raise TypeError(f"no parameter for GraphQL argument {graphql_arg!r} among {params}")
+
+
 def derived_name_cases(tier):
     """One tiny schema per member name: the name as attribute field, as method field returning an object, as method field returning a
     leaf, and as root field; every builder expression has its equivalent text."""
     from mc.corpus2 import name_catalogue
     cases = []
     from ariadne_codegen.utils import str_to_snake_case
-    for n in name_catalogue():
-        if n in ("tt", "mm", "ll", "zz", "Zz"):
+    from mc.corpus2 import harvest_generated_identifiers
+    harvested = [n for n in harvest_generated_identifiers() if n not in set(name_catalogue())]
+    for n in list(name_catalogue()) + harvested:
+        if n in ("tt", "mm", "ll", "zz", "Zz", "aa"):
             continue
         import keyword
         camel = str_to_snake_case(n) != n   # method fields with such names are the known finding sent_invalid|camel_method_field
@@ -256,6 +270,9 @@ def derived_name_cases(tier):
             "method_leaf": (f"type L {{ {n}(a: Int): Int zz: ID }}\ntype Query {{ ll: L }}\n", f"Query.ll().fields(_m(LFields, '{n}')(a=2))", f"ll {{ {n}(a: 2) }}",
                             ({"camel_method_field"} if camel else set()) | ({"keyword_method_field"} if kw else set())),
             "root": (f"type T {{ zz: ID }}\ntype Query {{ {n}: T }}\n", f"_m(Query, '{n}')().fields(TFields.zz)", f"{n} {{ zz }}", set()),
+            # the name as ARGUMENT of a nested method field and of a root field (python parameter looked up from the signature)
+            "argument": (f"type A {{ aa({n}: Int, other: Int): Int zz: ID }}\ntype Query {{ tt: A }}\n", f"Query.tt().fields(_a(AFields.aa, '{n}', 3))", f"tt {{ aa({n}: 3) }}", set()),
+            "root_argument": (f"type T {{ zz: ID }}\ntype Query {{ tt({n}: Int, other: Int): T }}\n", f"_a(Query.tt, '{n}', 4).fields(TFields.zz)", f"tt({n}: 4) {{ zz }}", set()),
         }
         for kind, (sch, py, gql, extra) in kinds.items():
             cases.append(dict(kind="expr", options={}, schema_text=sch, ops=[("query", [(py, gql, set())])], tags={"derived_names", f"name:{n}@{kind}"} | extra))
@@ -325,7 +342,7 @@ def evaluate(case):
         except BaseException as e:  # noqa
             out.update(status="import_error", error=f"{type(e).__name__}: {str(e)[:300]}", error_type=type(e).__name__)
             return out
-        ns = {"_m": member}
+        ns = {"_m": member, "_a": call_with_argument}
         for m in ("custom_fields", "custom_queries", "custom_mutations", "custom_typing_fields", "input_types", "enums"):
             if m in mods:
                 ns.update({k: v for k, v in vars(mods[m]).items() if not k.startswith("_")})
